@@ -20,7 +20,7 @@ RULE = ("harness-generated template datasets (rank 1-3, extents 1-6, coordinate 
         "grid_mapping) x variables of f8/f4/i8/i4/i2 with and without _FillValue and random masks x every DataType x MissingValue "
         "combination; write cases with 1-4 results (float64/float32/int64/int32, nomask / all-false / random masks) written together; "
         "distinct by (case kind, rank, stored type, DataType, MissingValue class, has-fill, n results, mask classes)")
-REQUIRED_COUNTERS = ["netcdf_extra_cases", "plain_rereads_of_the_same_variable", "tool_runs_through_a_linked_command_file", "large_grids_written", "reads_compared", "type_check_cases", "writes_read_back", "template_copies_compared", "union_mask_checks", "writes_over_an_older_dataset", "other_type_name_spellings", "written_results_made_by_commands"]
+REQUIRED_COUNTERS = ["reruns_after_a_repaired_dataset", "netcdf_extra_cases", "plain_rereads_of_the_same_variable", "tool_runs_through_a_linked_command_file", "large_grids_written", "reads_compared", "type_check_cases", "writes_read_back", "template_copies_compared", "union_mask_checks", "writes_over_an_older_dataset", "other_type_name_spellings", "written_results_made_by_commands"]
 ASSUMPTIONS = ["don't-care: real data equal to the fill value, result names clashing with dimension names, compression settings, plain ndarray results",
                "Fuzzy: data within [-1,1] must come back unchanged, data beyond +-1.5 must be rejected, whatever is returned lies in [-1,1]; the width "
                "of the tolerance band in between is not documented and not judged", "the parameter is called MissingValue in the code (MissingVal in the docs)"]
@@ -221,6 +221,40 @@ def run_extras(ctx, case):
         if r.value.shape != (ny, nx) or not numpy.allclose(numpy.ma.getdata(r.value), want_packed, rtol=0, atol=1e-9) or numpy.ma.getmaskarray(r.value).any():
             ctx.fail("read:packed-variable:value", {"got": numpy.ma.getdata(r.value).reshape(-1)[:4].tolist(), "want": want_packed.reshape(-1)[:4].tolist(), "scale_factor": float(pk.scale_factor) if False else None})
             return
+    # (b2) a read that is refused by the library's check, the dataset repaired, the very same program run again
+    from mpilot.program import Program
+    text2 = 'A = EEMSRead(InFileName = "fix.nc", InFieldName = v, DataType = "Positive Float")\nB = Sum(InFieldNames = [A, A])\nOut = EEMSWrite(OutFileName = "fixed_out.nc", OutFieldNames = [B], DimensionFileName = "fix.nc", DimensionFieldName = v)'
+    def _write_fix(vals):
+        with Dataset(os.path.join(d, "fix.nc"), "w") as ds:
+            ds.createDimension("x", len(vals))
+            xv = ds.createVariable("x", "f8", ("x",))
+            xv[:] = numpy.arange(len(vals)) * 1.0
+            v = ds.createVariable("v", "f8", ("x",))
+            v[:] = numpy.array(vals, dtype="f8")
+    _write_fix([1.0, -2.0, 3.0])
+    try:
+        p2 = Program.from_source(text2, libraries=arr.NC_LIBS, working_dir=d)
+        first = None
+        try:
+            p2.run()
+        except Exception as e:
+            first = e
+        if first is None:
+            ctx.fail("read:Positive Float:negative-data-accepted", {})
+            return
+        _write_fix([1.0, 2.0, 3.0])
+        ctx.count("reruns_after_a_repaired_dataset")
+        try:
+            p2.run()
+        except Exception as e:
+            ctx.fail("read:run-again-after-the-dataset-was-repaired-raises-%s" % type(e).__name__, {"first_error": type(first).__name__, "error": str(e)[:200]})
+            return
+        got2 = numpy.ma.getdata(p2.commands["B"].result).tolist()
+        if got2 != [2.0, 4.0, 6.0] or not os.path.exists(os.path.join(d, "fixed_out.nc")):
+            ctx.fail("read:run-again-after-the-dataset-was-repaired:%s" % ("wrong-values" if got2 != [2.0, 4.0, 6.0] else "nothing-written"), {"got": got2})
+            return
+    except Exception as e:
+        ctx.note_inconclusive("repair case: %s" % repr(e)[:200])
     # (c)
     which = case["rseed"] % 3
     line = ['A = EEMSRead(InFileName = "t.nc", InFieldName = neg, DataType = "Positive Float")', 'A = EEMSRead(InFileName = "t.nc", InFieldName = tmpl, DataType = Fuzzy)',
